@@ -527,34 +527,43 @@ func Main(cfg *Config) {
 			knownSeen++
 			continue
 		}
+		// confirm twice in fresh workers; an instance that does not reproduce (state left behind by an earlier
+		// case of the same worker) does not speak for the signature: up to 8 instances are tried, fewest
+		// deviations first
 		v := vs[0]
-		// confirm twice in fresh workers
 		confirmed := 0
-		for try := 0; try < 2; try++ {
-			w, err := startWorker(9000+try, scratch)
-			if err != nil {
-				break
-			}
-			pre := make([]PrefixEntry, len(v.Choices))
-			for i, c := range v.Choices {
-				pre[i] = PrefixEntry{C: c}
-			}
-			r, err := w.do(&job{Op: "one", Space: v.Space, Prefix: pre, Bound: -1, Tier: tier}, caseTimeout)
-			if err != nil {
-				if strings.HasPrefix(sig, cfg.CrashSig+":") && cfg.CrashSig != "" {
-					confirmed++
+		for k := 0; k < len(vs) && k < 8 && confirmed < 2; k++ {
+			v = vs[k]
+			confirmed = func() int {
+				confirmed := 0
+				for try := 0; try < 2; try++ {
+					w, err := startWorker(9000+try, scratch)
+					if err != nil {
+						break
+					}
+					pre := make([]PrefixEntry, len(v.Choices))
+					for i, c := range v.Choices {
+						pre[i] = PrefixEntry{C: c}
+					}
+					r, err := w.do(&job{Op: "one", Space: v.Space, Prefix: pre, Bound: -1, Tier: tier}, caseTimeout)
+					if err != nil {
+						if strings.HasPrefix(sig, cfg.CrashSig+":") && cfg.CrashSig != "" {
+							confirmed++
+						}
+						w.cmd.Process.Kill()
+						w.cmd.Wait()
+						continue
+					}
+					for _, rv := range r.Viol {
+						if rv.Sig == sig {
+							confirmed++
+							break
+						}
+					}
+					w.stop()
 				}
-				w.cmd.Process.Kill()
-				w.cmd.Wait()
-				continue
-			}
-			for _, rv := range r.Viol {
-				if rv.Sig == sig {
-					confirmed++
-					break
-				}
-			}
-			w.stop()
+				return confirmed
+			}()
 		}
 		if confirmed < 2 {
 			harnessErrs = append(harnessErrs, fmt.Sprintf("violation %q at %v in space %s did not reproduce (%d/2): not reported as a violation", sig, v.Choices, v.Space, confirmed))
